@@ -1,1 +1,39 @@
-From Ufw Require Import Model.RegTable.
+(* C03  Block reads and range iteration follow the flat address-space model.  Statements only. *)
+From Ufw Require Import Base.Bits Model.RegTable Proof.RegLemmas.
+Local Open Scope N_scope.
+
+Theorem C03_zero_length : forall t addr, t_init t = true -> block_read t addr 0 = ((ASuccess, 0), []).
+Proof. exact block_read_zero. Qed.
+Print Assumptions C03_zero_length.
+
+(* NOENTRY exactly when an address of the request is unmapped, reported with the first such address, nothing returned *)
+Theorem C03_read_iff : forall t addr n, t_init t = true -> n <> 0 ->
+  (fst (fst (block_read t addr n)) = ANoEntry <-> first_hole (area_fuel t) t addr n <> None) /\
+  (forall x, first_hole (area_fuel t) t addr n = Some x -> block_read t addr n = ((ANoEntry, x), [])).
+Proof. exact block_read_iff. Qed.
+Print Assumptions C03_read_iff.
+Theorem C03_all_mapped : forall fuel t addr n, first_hole fuel t addr n = None ->
+  forall x, addr <= x < addr + n -> exists i a, find_area (t_areas t) x 0 = Some (i, a).
+Proof. exact first_hole_none. Qed.
+Print Assumptions C03_all_mapped.
+
+(* inside one area: the stored words in order, zeros for an area that is not readable *)
+Theorem C03_read_value : forall t addr n i a, t_init t = true -> n <> 0 ->
+  find_area (t_areas t) addr 0 = Some (i, a) -> addr + n <= a_base a + a_size a ->
+  block_read t addr n = ((ASuccess, 0), if area_is_readable a then area_read a (addr - a_base a) n else repeat 0 (N.to_nat n)).
+Proof. exact block_read_one_area. Qed.
+Print Assumptions C03_read_value.
+
+(* iteration: exactly the registers overlapping the range, in ascending order *)
+Theorem C03_foreach : forall t addr off, t_init t = true -> off <> 0 -> sorted_entries (t_entries t) ->
+  foreach_in t addr off [] =
+  ((ASuccess, 0), map (fun p => N.of_nat (fst p))
+     (filter (fun p => overlaps (snd p) addr off) (combine (seq 0 (length (t_entries t))) (t_entries t)))).
+Proof. exact foreach_overlapping. Qed.
+Print Assumptions C03_foreach.
+(* the first non-zero callback result stops it; negative = failure at that register's address *)
+Theorem C03_foreach_stops : forall es i addr off z zs e r, es = e :: r -> overlaps e addr off = true -> z <> 0%Z ->
+  foreach_loop es i addr off (z :: zs) =
+  if (z <? 0)%Z then ((AFailure, e_addr e), [i]) else ((ASuccess, 0), [i]).
+Proof. exact foreach_stops. Qed.
+Print Assumptions C03_foreach_stops.
